@@ -35,6 +35,9 @@ ASSUMPTIONS = [
     "to return an ordered list) and also runs it unpatched",
     "the input graph is a graph over plain variables (the model's input type is MG Name); graphs whose nodes are "
     "counterfactual variables raise TypeError in the real code and are outside the model",
+    "Spec/Fscm.lean (the definition of the probability of a counterfactual event that the theorems are about) and the Python "
+    "oracle are two independent implementations of the same semantics; they are compared exactly on random models and events "
+    "on every run (cases of kind 'spec')",
     "theorems assume what NxMixedGraph.from_edges guarantees (MG.WF) and, for acyclicity, an acyclic input graph",
 ]
 EXHAUSTIVE = {"quick": False, "thorough": True}   # thorough: every graph on <=2 nodes x every event with <=2 conjuncts
@@ -83,6 +86,10 @@ def cases(rng: random.Random, tier: str):
         out.append(c)
     if tier == "thorough":
         out += K.exhaustive_event_cases(2, 2)
+    # the Python oracle against the Lean SPECIFICATION of "probability of a counterfactual event" (Y0/Spec/Fscm.lean)
+    for _ in range(40 if tier == "quick" else 400):
+        g = K.rand_admg(rng, 1, 4)
+        out.append({"kind": "spec", "g": g, "event": K.rand_event(rng, g, max_worlds=3, max_items=3), "seed": rng.randrange(1 << 30)})
     return out
 
 
@@ -180,7 +187,19 @@ def _semantic(case, res, exc=None):
     return None if w is None else f"relabelled event {new_ev} has another probability than the event: {w}"
 
 
+def _spec_model(case):
+    rng = random.Random(case["seed"])
+    g = case["g"]
+    m = S.Fscm(G.all_nodes(g), g["di"], g["bi"], rng, max_card=rng.choice([2, 3]))
+    return m, S.rand_nu(m, rng)
+
+
 def run_python(case):
+    if case.get("kind") == "spec":
+        m, nu = _spec_model(case)
+        p = m.prob(S.event_items(case["event"], nu))
+        return {"out": ["prob", str(p.numerator), str(p.denominator)], "fail": None, "nontrivial": 0 < p < 1,
+                "tags": {"spec_crosscheck": True}}
     strategies = K.strategies_for(case["event"])
     r0, exc0 = _run_real(case, None)
     by_order = []
@@ -224,6 +243,9 @@ def run_python(case):
 
 
 def request(case):
+    if case.get("kind") == "spec":
+        m, nu = _spec_model(case)
+        return C.enc(["cf", "fscm_prob", S.model_sexp(m), S.nu_sexp(nu), case["event"]])
     g = case["g"]
     gs = C.graph_sexp(g["nodes"], g["di"], g["bi"])
     return C.enc(["cf", "make_cg_all", gs, case["event"], [[r, k] for r, k in K.strategies_for(case["event"])]])
@@ -241,10 +263,14 @@ def _canon_one(rep):
 def canon_model(case, rep):
     if rep[0] != "ok":
         return ["model-error", rep]
+    if case.get("kind") == "spec":
+        return ["prob", rep[1], rep[2]]
     return ["orders", [_canon_one(r) for r in rep[1:]]]
 
 
 def shrink(case):
+    if case.get("kind") == "spec":
+        return
     yield from K.shrink_event_case(case, keys=("event",))
 
 
